@@ -9,6 +9,7 @@ import EinoV.Proofs.C13
 import EinoV.Proofs.C13Fwd
 import EinoV.Gen.FactsC13
 import EinoV.Expected.C13
+import EinoV.Proofs.TransC13
 
 namespace EinoV.C13
 open EinoV.Gen
@@ -333,5 +334,64 @@ theorem sentinel_not_matched_without_unwrap :
     errorsIs false (graphFailThrough false [] (.leaf 1)) 1 = false := by decide
 /-- Without a `recover` a panicking body is a process crash. -/
 theorem panic_crashes_without_recover : runInGoroutine false (.panic 0) = .processCrash := rfl
+
+/-! ### The translated error wrapping (compose/error.go → Gen/TransC13.lean; gotrans phase 6)
+
+  `newGraphRunError`, `wrapGraphNodeError`, `newStreamWrapperError`, `wrapStreamWrapperError` and
+  `(*internalError).Unwrap` are re-translated from /repo on every run of this property.  Go `error` values are
+  the prelude type `GoError` (Model/GoSemErr.lean — trusted: it also gives `errors.As` / `errors.Is` over the
+  `Unwrap` chain their meaning); `enc` embeds the model's `GoErr` into it.  The theorems say that the translated
+  functions compute the model's `wrapNode` / `wrapStream` / `newGraphRunError` — the functions
+  `failThrough` / `graphFailThrough` (and with them every theorem above) are built from — and that the
+  prelude's `errors.As` / `errors.Is` are the model's `asInternal` / `errorsIs`.  `isInterruptError` is an
+  external, assumed to be the model's `isInterrupt`. -/
+section TranslatedErrors
+open EinoV.GoSem EinoV.TransC13 EinoV.Gen.TransC13
+variable {V : Type} [Inhabited V]
+
+theorem translated_source_is_current : FactsC13.errorWrappingTranslated = true := by decide
+
+theorem translated_wrapGraphNodeError_refines (ext : Ext V) (eext : ErrExt) (act : Nat → String)
+    (hi : ∀ e, eext.isInterrupt (enc act e) = isInterrupt FactsC13.internalErrorHasUnwrap e)
+    (key : String) (e : GoErr) :
+    wrapGraphNodeError (V := V) ext eext key (enc act e)
+      = enc act (wrapNode FactsC13.internalErrorHasUnwrap key e) :=
+  wrapGraphNodeError_refines ext eext act _ hi key e
+
+theorem translated_wrapStreamWrapperError_refines (ext : Ext V) (eext : ErrExt) (act : Nat → String)
+    (hi : ∀ e, eext.isInterrupt (enc act e) = isInterrupt FactsC13.internalErrorHasUnwrap e)
+    (a : Nat) (e : GoErr) :
+    wrapStreamWrapperError (V := V) ext eext (act a) (enc act e)
+      = enc act (wrapStream FactsC13.internalErrorHasUnwrap a e) :=
+  wrapStreamWrapperError_refines ext eext act _ hi a e
+
+theorem translated_newGraphRunError_refines (ext : Ext V) (eext : ErrExt) (act : Nat → String) (e : GoErr) :
+    EinoV.Gen.TransC13.newGraphRunError (V := V) ext eext (enc act e) = enc act (newGraphRunError e) :=
+  newGraphRunError_refines ext eext act e
+
+/-- `(*internalError).Unwrap` (translated) returns `origError` -/
+theorem translated_unwrap_refines (ext : Ext V) (eext : ErrExt) (x : internalError V) :
+    internalError_Unwrap ext eext x = x.origError :=
+  unwrap_refines ext eext x
+
+/-- the prelude's `errors.As` / `errors.Is` over the Unwrap chain are the model's `asInternal` / `errorsIs` -/
+theorem translated_errorsAs_is_model (act : Nat → String) (e : GoErr) :
+    (enc act e).asInternal = (asInternal e).map
+      (fun t => ((if t.1 then "GraphRunError" else "NodeRunError"), t.2.2.1.map act, t.2.1, enc act t.2.2.2)) :=
+  asInternal_enc act e
+
+theorem translated_errorsIs_is_model (act : Nat → String) (unwraps : Bool) (e : GoErr) (t : Nat) :
+    (enc act e).is unwraps t = errorsIs unwraps e t :=
+  is_enc act unwraps e t
+
+/-- non-vacuity: a user error wrapped at node "a", then — behind a `%w` layer — at node "g": the key is
+    prepended to the internal error found on the chain and that error is returned (the `%w` layer is dropped) -/
+example : wrapGraphNodeError (V := Nat) { zeroValue := 0, emptyStream := 0, mergeValues := fun _ => (0, none) }
+      { isInterrupt := fun _ => false } "g"
+      (.wrapf (wrapGraphNodeError (V := Nat) { zeroValue := 0, emptyStream := 0, mergeValues := fun _ => (0, none) }
+        { isInterrupt := fun _ => false } "a" (.leaf 7)))
+    = .internal "NodeRunError" [] ["g", "a"] (.leaf 7) := by decide
+
+end TranslatedErrors
 
 end EinoV.C13
